@@ -84,6 +84,7 @@ type Opts struct {
 	Env      []string
 	Stdin    []byte
 	Prefix   []string // command prefix, e.g. strace ...
+	StdoutPath string  // when set, moq's standard output is this file/device instead of a buffer
 }
 
 // Run executes moq with args in cwd.
@@ -105,6 +106,12 @@ func (m *Moq) Run(cwd string, args []string, o Opts) Result {
 	cmd.SysProcAttr = &syscall.SysProcAttr{Setpgid: true}
 	var so, se bytes.Buffer
 	cmd.Stdout, cmd.Stderr = &so, &se
+	if o.StdoutPath != "" {
+		if f, err := os.OpenFile(o.StdoutPath, os.O_WRONLY, 0); err == nil {
+			defer f.Close()
+			cmd.Stdout = f
+		}
+	}
 	if o.Stdin != nil {
 		cmd.Stdin = bytes.NewReader(o.Stdin)
 	}
@@ -145,6 +152,11 @@ func (m *Moq) Run(cwd string, args []string, o Opts) Result {
 
 // Parallel runs f(i) for i in [0,n) on `workers` goroutines.
 func Parallel(n, workers int, f func(i int)) {
+	ParallelW(n, workers, func(_, i int) { f(i) })
+}
+
+// ParallelW is Parallel with the worker index passed to f.
+func ParallelW(n, workers int, f func(worker, i int)) {
 	if workers <= 0 {
 		workers = 16
 	}
@@ -152,12 +164,12 @@ func Parallel(n, workers int, f func(i int)) {
 	ch := make(chan int)
 	for w := 0; w < workers; w++ {
 		wg.Add(1)
-		go func() {
+		go func(w int) {
 			defer wg.Done()
 			for i := range ch {
-				f(i)
+				f(w, i)
 			}
-		}()
+		}(w)
 	}
 	for i := 0; i < n; i++ {
 		ch <- i
